@@ -27,7 +27,11 @@ if os.environ.get("KTVERIF_REPO"):
     os.makedirs(CACHE, exist_ok=True)
     # regenerate the harness copy every time (cheap; keeps it in sync with /verif/harness)
     subprocess.call(["rm", "-rf", _alt])
-    shutil.copytree(HARNESS, _alt, ignore=shutil.ignore_patterns("target"))
+    # from the *committed* harness (git HEAD), so that work in progress in /verif/harness cannot break a lane
+    os.makedirs(_alt)
+    _ar = subprocess.Popen(["git", "-C", VERIF, "archive", "HEAD", "harness"], stdout=subprocess.PIPE)
+    subprocess.check_call(["tar", "-x", "-C", CACHE, "--strip-components=0"], stdin=_ar.stdout)
+    _ar.wait()
     for _root, _dirs, _files in os.walk(_alt):
         for _f in _files:
             if _f in ("Cargo.toml", "config.toml"):
